@@ -234,7 +234,7 @@ Section FixedEraseLife.
   Proof.
     intros Hi. cbv zeta.
     pose proof (erase_rep_fixed_nt L Hwf Hv Hnt v l offs R i Hi) as HR. cbv zeta in HR.
-    destruct HR as (R' & _ & _ & Hb & Hs).
+    destruct HR as (R' & _ & _ & Hb & Hs & _).
     unfold erase in *. rewrite (vsize_n L Hv v l offs R) in *.
     destruct (destruct_range_fixed L Hwf Hv v l offs R i 1 i (v_mem v) (le_n _) ltac:(fold n; lia)
                 ltac:(intros k _ Hk; exact (orig_elem L Hv v l offs R k Hk))) as (m0 & E & Hm0).
@@ -263,7 +263,7 @@ Section FixedEraseLife.
   Proof.
     intros Hij Hjn. cbv zeta.
     pose proof (erase_range_rep_fixed_nt L Hwf Hv Hnt v l offs R i j ltac:(lia) ltac:(left; exact Hjn) ltac:(fold n; lia)) as HR.
-    cbv zeta in HR. destruct HR as (R' & _ & _ & Hb & Hs).
+    cbv zeta in HR. destruct HR as (R' & _ & _ & Hb & Hs & _).
     unfold erase_range in *. rewrite (vsize_n L Hv v l offs R) in *. rewrite ntd_not_all in *.
     replace (Z.to_nat (Z.of_nat j - Z.of_nat i)) with (j - i)%nat in * by lia.
     destruct (destruct_range_fixed L Hwf Hv v l offs R i (j - i) i (v_mem v) (le_n _) ltac:(fold n; lia)
